@@ -33,7 +33,7 @@ def ascending(rs):
     return And(*[h0 < l1 for (l0, h0), (l1, h1) in zip(rs, rs[1:])])
 
 
-K = lambda tier, seed: [(k,) for k in ((1, 2, 3, 4) if tier == "thorough" else (1, 2, 3))]
+K = lambda tier, seed: [(k,) for k in ((0, 1, 2, 3, 4) if tier == "thorough" else (0, 1, 2, 3))]
 
 
 @contract("bounds.max_propagator", ["C14"], ["vsc.model.variable_bound_max_propagator.VariableBoundMaxPropagator.propagate",
@@ -124,7 +124,7 @@ def c_in(c, kd, ki):
           ["vsc.model.variable_bound_bounds_max_propagator.VariableBoundBoundsMaxPropagator.max",
            "vsc.model.variable_bound_bounds_min_propagator.VariableBoundBoundsMinPropagator.min",
            "vsc.model.variable_bound_vareq_propagator.VariableBoundVarEqPropagator.propagate"],
-          lambda tier, seed: [(a, b) for a in (1, 2) for b in (1, 2)])
+          lambda tier, seed: [(a, b) for a in (0, 1, 2) for b in (0, 1, 2)])
 def c_bounds_rel(c, ka, kb):
     from vsc.model.variable_bound_bounds_max_propagator import VariableBoundBoundsMaxPropagator
     from vsc.model.variable_bound_bounds_min_propagator import VariableBoundBoundsMinPropagator
